@@ -24,8 +24,8 @@ func WithCancel(parent Context) (Context, CancelFunc) { return context.WithCance
 func WithCancelCause(parent Context) (Context, CancelCauseFunc) {
 	return context.WithCancelCause(parent)
 }
-func Cause(c Context) error                        { return context.Cause(c) }
-func WithoutCancel(parent Context) Context         { return context.WithoutCancel(parent) }
+func Cause(c Context) error                       { return context.Cause(c) }
+func WithoutCancel(parent Context) Context        { return context.WithoutCancel(parent) }
 func AfterFunc(ctx Context, f func()) func() bool { panic("simctx: AfterFunc not supported") }
 
 // deadlineCtx reports DeadlineExceeded and a deadline, but is otherwise the wrapped cancel context,
